@@ -438,14 +438,3 @@ func runC20Driver(c bson.D, x *Ctx) error {
 var propC20Driver = Register(&Prop{ID: "C20", Sub: "driver", Gen: genC20Driver, Run: runC20Driver})
 
 func TestProp_C20_driver(t *testing.T) { propC20Driver.Check(t) }
-
-// native fuzzing entry points (thorough tier): coverage-guided exploration of
-// the same properties through rapid.MakeFuzz.
-func FuzzC20Kit(f *testing.F) {
-	f.Fuzz(rapid.MakeFuzz(func(t *rapid.T) {
-		c := genC20Kit(t)
-		if err := runC20Kit(c, &Ctx{Rec: fuzzRec("C20", "kit-fuzz")}); err != nil {
-			t.Fatalf("%v", err)
-		}
-	}))
-}
